@@ -43,6 +43,7 @@ pub enum M {
     LendClone,
     LendVia,
     LendViaMut,
+    LendZ,
     // owned tracked values (C12)
     OwnSingle,
     OwnMulti,
@@ -63,6 +64,22 @@ pub enum M {
     RcU,
     /// provided method whose body formats `self` through Debug and Display supertraits (C15)
     Show,
+    /// required methods with by-value / Rc / Arc receivers: inside a default body they are
+    /// forwarded through `from_delegator` (the instance travels through the helper *and back*)
+    V2Req,
+    V2Prov,
+    Rc2Req,
+    Rc2Prov,
+    Arc2Req,
+    Arc2Prov,
+    /// a method without parameters (zero-sized inputs)
+    Z0,
+    /// a provided *generic* method, two instantiations
+    GpU8,
+    GpU16,
+    /// deep composites with an owned single-use leaf (C12)
+    OwnDeepOpt,
+    OwnDeepPoll,
 }
 
 #[derive(Clone, Copy, Debug, PartialEq, Eq)]
@@ -119,6 +136,7 @@ pub const ALL_M: &[M] = &[
     M::LendClone,
     M::LendVia,
     M::LendViaMut,
+    M::LendZ,
     M::OwnSingle,
     M::OwnMulti,
     M::OwnOpt,
@@ -134,6 +152,17 @@ pub const ALL_M: &[M] = &[
     M::Vu,
     M::RcU,
     M::Show,
+    M::V2Req,
+    M::V2Prov,
+    M::Rc2Req,
+    M::Rc2Prov,
+    M::Arc2Req,
+    M::Arc2Prov,
+    M::Z0,
+    M::GpU8,
+    M::GpU16,
+    M::OwnDeepOpt,
+    M::OwnDeepPoll,
 ];
 
 impl M {
@@ -170,6 +199,7 @@ impl M {
             M::LendClone => ("Lend", "lend_clone", false, false, false, Recv::Ref, false),
             M::LendVia => ("Lend", "lend_via", false, true, false, Recv::Ref, false),
             M::LendViaMut => ("Lend", "lend_via_mut", false, true, false, Recv::Mut, false),
+            M::LendZ => ("Lend", "lend_z", false, false, false, Recv::Ref, false),
             M::OwnSingle => ("Own", "own_single", false, false, true, Recv::Ref, false),
             M::OwnMulti => ("Own", "own_multi", false, false, false, Recv::Ref, false),
             M::OwnOpt => ("Own", "own_opt", false, false, false, Recv::Ref, false),
@@ -185,6 +215,17 @@ impl M {
             M::Vu => ("ByValU", "vu", false, false, true, Recv::Val, false),
             M::RcU => ("ByRcU", "rcu", false, false, true, Recv::Rc, false),
             M::Show => ("FmtT", "show", false, true, false, Recv::Ref, false),
+            M::V2Req => ("ByVal2", "v2_req", false, false, false, Recv::Val, false),
+            M::V2Prov => ("ByVal2", "v2_prov", false, true, false, Recv::Val, false),
+            M::Rc2Req => ("ByRc2", "rc2_req", false, false, false, Recv::Rc, false),
+            M::Rc2Prov => ("ByRc2", "rc2_prov", false, true, false, Recv::Rc, false),
+            M::Arc2Req => ("ByArc2", "arc2_req", false, false, false, Recv::Arc, false),
+            M::Arc2Prov => ("ByArc2", "arc2_prov", false, true, false, Recv::Arc, false),
+            M::Z0 => ("Zero", "z0", false, false, true, Recv::Ref, false),
+            M::GpU8 => ("GenM", "gp", false, true, false, Recv::Ref, false),
+            M::GpU16 => ("GenM", "gp", false, true, false, Recv::Ref, false),
+            M::OwnDeepOpt => ("Own", "own_deep_opt", false, false, false, Recv::Ref, false),
+            M::OwnDeepPoll => ("Own", "own_deep_poll", false, false, false, Recv::Ref, false),
         };
         MInfo {
             m: self,
@@ -205,7 +246,9 @@ impl M {
 
     /// size of the argument domain (index = x + 4*y)
     pub fn domain(self) -> u32 {
-        if self.info().two_args {
+        if self == M::Z0 {
+            1
+        } else if self.info().two_args {
             16
         } else {
             4
@@ -335,6 +378,8 @@ pub enum Special {
     Lent { id: u32 },
     /// each_call(_).answers(|u| u.make_ref(u.clone()))
     LendClone,
+    /// each_call(_).answers(|u| u.make_ref(ZTok)): a zero-sized value with a destructor
+    LendZ,
     /// some_call / next_call (ordered) .returns(Tracked{id}) [.once()] [.then().answers(fresh value)]
     OwnSingle { ordered: bool, once: bool, then_answers: bool, id: u32 },
     /// returns(TrackedC{id}) quantified for repeated use
@@ -351,6 +396,10 @@ pub enum Special {
     OwnVec { id: u32 },
     /// -> (&u32, Tracked, Tracked): two owned leaves (ids id and id+1), single use
     OwnTup3 { id: u32 },
+    /// -> Option<Result<&u32, Tracked>>: Some(Err(owned)), single use
+    OwnDeepOpt { id: u32 },
+    /// -> Poll<Result<&u32, Tracked>>: Ready(Err(owned)), single use
+    OwnDeepPoll { id: u32 },
 }
 
 #[derive(Serialize, Deserialize, Clone, Copy, Debug, PartialEq, Eq, Hash)]
@@ -481,6 +530,8 @@ pub enum LendKind {
     ViaHelper,
     /// make_ref(self.clone()): a clone of the mock lent by the mock
     CloneOfSelf,
+    /// make_ref of a zero-sized value that has a destructor
+    MakeRefZ,
 }
 
 #[derive(Serialize, Deserialize, Clone, Copy, Debug, PartialEq, Eq, Hash)]
@@ -501,6 +552,10 @@ pub enum OwnKind {
     Vec,
     /// -> (&u32, Tracked, Tracked), single use, two owned leaves
     Tup3,
+    /// -> Option<Result<&u32, Tracked>>, single use
+    DeepOpt,
+    /// -> Poll<Result<&u32, Tracked>>, single use
+    DeepPoll,
 }
 
 #[derive(Serialize, Deserialize, Clone, Copy, Debug, PartialEq, Eq, Hash)]
